@@ -567,6 +567,13 @@ func (sc *specCtx) goExpr(e ast.Expr, subs map[string]SpecExpr) Value {
 		if x.Op == token.AND {
 			// &v for a program variable whose address is taken (boxed): the reference of its box
 			if id, ok := ast.Unparen(x.X).(*ast.Ident); ok {
+				// a parameter bound by value while a callee's contract is applied at a call site
+				if v, ok := sc.env[id.Name]; ok && v.T != nil {
+					st := sc.cur
+					ref := sc.u.alloc(st, "specbox_"+id.Name)
+					sc.u.store(st, sc.u.derefLV(ref, v.T), v)
+					return scalar(types.NewPointer(v.T), ref)
+				}
 				if obj, ok := sc.lookupLocal(id.Name); ok {
 					if o, ok := obj.(*types.Var); ok {
 						st := sc.cur
